@@ -897,6 +897,9 @@ def main(argv=None):
                    "clang -O1 IR vs the shipped -Ofast build (replay runs the shipped flags)", "z3"]
     chk.assumptions = ["operands of field kernels are canonical (< p): class invariant, re-established by every kernel's post-condition",
                        "Fq in the shipped x86-64 configuration uses the assembly kernels decided by C03 against the same specifications"]
+    # lower layers whose specifications this check relies on: their obligations are part of this check's claim (framework.Check.include)
+    for dep in ['C18']:
+        chk.include(dep)
     chk.run()
     chk.finish()
 
